@@ -7,3 +7,7 @@ import Props.C18
 #print axioms Diag.labels_row_sum
 #print axioms Diag.labels_n
 #print axioms Diag.labels_success_iff
+#print axioms Diag.labels_rows_exact
+#print axioms Diag.labels_total
+#print axioms Diag.carries_unique
+#print axioms Diag.rloop_exact
